@@ -8,7 +8,7 @@ CONSTANTS
   KwNames = {}
   KwVals = {}
   MaxKw = 0
-  FBug = "none"
+  FBug = "isdigit-name"
   XMaxItems = 2
   XLits <- N1XLits
   XNames <- N1XNames
@@ -20,5 +20,5 @@ CONSTANTS
   XKwNames <- KwEdge
   XKwVals <- XOne
   XKwExtraVals <- XOne
-INVARIANT NoCrashStrict
+INVARIANT NoCrash
 CHECK_DEADLOCK FALSE
